@@ -147,6 +147,31 @@ package mqttproxy
 //     Not generated: a late UNSUBSCRIBE of the superseded connection, packets
 //     of the successor (take-over histories in general stay C16's).
 //
+// Fourth wave (handshakes of an unconnected id through the real Broker.handleConn
+// over the fake socket; the session manager's storage is the repo's mock behind
+// a wrapper that can make ONE read slow):
+//   * fconn: the CONNACK cannot be written (every write of the fake socket
+//     fails): handleConn has registered the id, resumed its session and restored
+//     the session's subscriptions by then and must back out. Also as a variant of
+//     the successor connection of the third wave (the successor takes the closed,
+//     lingering connection over and then fails). Reference: a connect and a
+//     disconnect in one step (the id is not routed afterwards, a
+//     cleanSession=false session keeps what it had); whether a failed
+//     cleanSession=true CONNECT has discarded the stored session is left open.
+//   * race: two CONNECTs of the id race, the first one's session read waits in
+//     the storage. Wherever that read happens, the second CONNECT either waits
+//     for the first (the read is inside the broker lock) or completes first, in
+//     which case it SUBSCRIBEs at once; then the read returns. Whoever registers
+//     second takes the other over; the reference follows the observed order with
+//     the usual rule (subscriptions live on exactly if both sessions are
+//     cleanSession=false). The loser's socket is hung up, the survivor
+//     SUBSCRIBEs (its SUBACK is read off the fake socket) and hangs up: after
+//     that nothing may be routed, and the next cleanSession=false connect must
+//     bring back what was acknowledged. From the start of the race until both
+//     handshakes are through no gate is passed (a handshake waiting for the
+//     storage inside the broker lock holds a real mutex).
+//   Both are skipped when the stored session holds the filter "<<" (known finding).
+//
 // The trie is additionally walked after every mutating operation and compared
 // with the reference; a difference is never a verdict by itself: it only
 // selects witness topics that are then published, and the routing oracle
@@ -191,12 +216,18 @@ type c14Op struct {
 	Late *c14Late `json:"late,omitempty"` // one more packet the read loop still processes between the two halves (it only looks at c.done before it blocks in ReadPacket)
 	N    int      `json:"n,omitempty"`    // late: which of the id's earlier, torn-down connections runs its teardown once more
 	// third wave
+	// fourth wave: fconn = a connection attempt of the (unconnected) id through the real Broker.handleConn whose CONNACK
+	// cannot be written (P); race = two such attempts (P, P2) racing while the storage is slow for the first, Subs = SUBSCRIBE
+	// on the second if it is through before the first's read returns, Subs2 = SUBSCRIBE on the surviving connection, which then hangs up
+	P2    bool     `json:"p2,omitempty"`
+	Subs2 []c14Sub `json:"subs2,omitempty"`
 	Mid  bool     `json:"mid,omitempty"`  // W with a late SUBSCRIBE: it is processed INSIDE the write loop's closeAndDelSession, after the clean-up under the broker lock and before Client.close()
 	Succ *c14Succ `json:"succ,omitempty"` // B with a window: while the closed connection lingers, a new connection of the same id comes (through the real Broker.handleConn) and, after the old one's late SUBSCRIBE and teardown, goes
 }
 
 type c14Succ struct {
-	P bool `json:"p,omitempty"` // cleanSession=false
+	P    bool `json:"p,omitempty"`    // cleanSession=false
+	Fail bool `json:"fail,omitempty"` // the successor's CONNACK cannot be written: its handshake fails after it has taken the id over
 }
 
 type c14Late struct {
@@ -469,7 +500,7 @@ func c14Gen(rng *sim.Rand, tier string) interface{} {
 					op.Mid = true
 				}
 				if op.B && op.Win && rng.Bool(0.45) {
-					op.Succ = &c14Succ{P: t.Persist != rng.Bool(0.3)}
+					op.Succ = &c14Succ{P: t.Persist != rng.Bool(0.3), Fail: rng.Bool(0.3)}
 					if op.Late != nil {
 						op.Late.K = "sub"
 					}
@@ -477,6 +508,12 @@ func c14Gen(rng *sim.Rand, tier string) interface{} {
 				if rng.Bool(0.75) {
 					// reconnect explicitly (otherwise the next sub/unsub connects with the task's default)
 					t.Ops = append(t.Ops, op)
+					if rng.Bool(0.15) {
+						t.Ops = append(t.Ops, c14Op{K: "fconn", P: rng.Bool(0.75), GapUs: gap()})
+					}
+					if rng.Bool(0.1) {
+						t.Ops = append(t.Ops, c14Op{K: "race", P: rng.Bool(0.85), P2: rng.Bool(0.85), Subs: list(0, 0), Subs2: list(0, 0), GapUs: gap()})
+					}
 					if rng.Bool(0.3) {
 						t.Ops = append(t.Ops, c14Op{K: "late", N: rng.Intn(4), GapUs: gap()})
 					}
@@ -594,12 +631,13 @@ type c14Ref struct {
 	// (they were touched by a packet processed while the connection was being
 	// torn down, or the session was deleted by an admin: the statement is silent)
 	storedOpt map[string]map[string]bool
+	online    map[string]bool // between connect and the (first) disconnect that follows it
 	requal  map[string]map[string]bool // filter was re-subscribed with another QoS since it was first taken
 }
 
 func c14NewRef() *c14Ref {
 	return &c14Ref{subs: map[string]map[string]*c14Ent{}, zomb: map[string]map[string]*c14Zombie{}, removed: map[string]map[string]bool{},
-		persist: map[string]bool{}, stored: map[string]map[string]map[byte]bool{}, storedOpt: map[string]map[string]bool{}, requal: map[string]map[string]bool{}}
+		persist: map[string]bool{}, stored: map[string]map[string]map[byte]bool{}, storedOpt: map[string]map[string]bool{}, online: map[string]bool{}, requal: map[string]map[string]bool{}}
 }
 
 // connect: a cleanSession=false connection finding a stored cleanSession=false
@@ -612,6 +650,7 @@ func (m *c14Ref) connect(id string, persist, keepZombies bool) (restored, requal
 	delete(m.stored, id)
 	delete(m.storedOpt, id)
 	m.persist[id] = persist
+	m.online[id] = true
 	if !persist || st == nil {
 		discarded = len(st) > 0
 		m.requal[id] = map[string]bool{}
@@ -727,7 +766,11 @@ func (m *c14Ref) disconnect(id string, left func(f string) bool) (had int) {
 // cleanSession=false session may or may not be part of what comes back with it.
 func (m *c14Ref) disconnectKind(id string, left func(f string) bool, kind string) (had int) {
 	m.client(id)
-	if m.persist[id] {
+	// a second call for the same connection (leftovers of a packet processed
+	// after the disconnect) must not touch what the first one stored
+	storing := m.persist[id] && m.online[id]
+	m.online[id] = false
+	if storing {
 		m.stored[id] = map[string]map[byte]bool{}
 		m.storedOpt[id] = map[string]bool{}
 	}
@@ -737,7 +780,7 @@ func (m *c14Ref) disconnectKind(id string, left func(f string) bool, kind string
 			had++
 		}
 		{
-			if m.persist[id] {
+			if storing {
 				if !e.definite {
 					m.storedOpt[id][f] = true
 				}
@@ -865,8 +908,10 @@ func c14Witness(f string) []string {
 // Broker.handleConn: it delivers one CONNECT packet, swallows what is written,
 // and then keeps the read loop waiting until the harness hangs up.
 type c14FakeConn struct {
-	in     []byte
-	waits  bool
+	in        []byte
+	waits     bool
+	failWrite bool     // every write fails (the peer is gone before the CONNACK)
+	subacks   []uint16 // message ids of the SUBACKs written
 	ready  chan struct{} // closed when the read loop waits for its first packet
 	hangup chan struct{}
 }
@@ -884,7 +929,37 @@ func (f *c14FakeConn) Read(p []byte) (int, error) {
 	<-f.hangup
 	return 0, io.EOF
 }
-func (f *c14FakeConn) Write(p []byte) (int, error)        { return len(p), nil }
+func (f *c14FakeConn) Write(p []byte) (int, error) {
+	if f.failWrite {
+		return 0, io.ErrClosedPipe
+	}
+	if pk, err := packets.ReadPacket(bytes.NewReader(p)); err == nil {
+		if sa, ok := pk.(*packets.SubackPacket); ok {
+			f.subacks = append(f.subacks, sa.MessageID)
+		}
+	}
+	return len(p), nil
+}
+
+// c14Store: the mock storage with one slow read: the next get of the armed key
+// reads, then waits for release before it returns what it read.
+type c14Store struct {
+	storage
+	armed   string
+	release chan struct{}
+	waiting bool
+}
+
+func (s *c14Store) get(key string) (*string, error) {
+	v, err := s.storage.get(key)
+	if s.armed != "" && key == s.armed {
+		s.armed = ""
+		s.waiting = true
+		<-s.release
+		s.waiting = false
+	}
+	return v, err
+}
 func (f *c14FakeConn) Close() error                       { return nil }
 func (f *c14FakeConn) LocalAddr() net.Addr                { return c14Addr("broker") }
 func (f *c14FakeConn) RemoteAddr() net.Addr               { return c14Addr("client") }
@@ -893,6 +968,13 @@ func (f *c14FakeConn) SetReadDeadline(t time.Time) error  { return nil }
 func (f *c14FakeConn) SetWriteDeadline(t time.Time) error { return nil }
 
 type c14Addr string
+
+func c14Mode(persist bool) string {
+	if persist {
+		return "persist"
+	}
+	return "clean"
+}
 
 func (a c14Addr) Network() string { return "fake" }
 func (a c14Addr) String() string  { return string(a) }
@@ -935,7 +1017,8 @@ func c14Exec(r *sim.Run, sci interface{}) {
 	b.pipelines = map[PacketType]string{}
 	b.connectionLimiter = newLimiter(nil)
 	b.topicMgr = newTopicManager(cache)
-	b.sessMgr = newSessionManager(b, newStorage(nil)) // real doStore goroutine: sessions are persisted to the mock storage
+	slowStore := &c14Store{storage: newStorage(nil)}
+	b.sessMgr = newSessionManager(b, slowStore) // real doStore goroutine: sessions are persisted to the mock storage
 	defer b.sessMgr.close()
 	_ = nops
 	mgr := b.topicMgr
@@ -1589,6 +1672,32 @@ func c14Exec(r *sim.Run, sci interface{}) {
 
 	olds := map[string][]*Client{} // torn-down connections per id (their write loops may still call closeAndDelSession)
 
+	// settle: the disconnect of the id is complete. Whatever a late SUBSCRIBE
+	// named and is still in the tree now is that SUBSCRIBE's residue (this decides
+	// the class name, routing decides the verdict)
+	settle := func(id string) (had int) {
+		left := func(f string) bool { return c14InTrie(mgr.root, f, id) }
+		delete(limbo, id)
+		delete(cleaned, id)
+		had = ref.disconnectKind(id, left, "late")
+		for _, f := range c14Keys(lateSubs[id]) {
+			if !left(f) {
+				continue
+			}
+			z := ref.zomb[id][f]
+			if z == nil {
+				z = &c14Zombie{kind: "late", qos: map[byte]bool{}}
+				ref.zomb[id][f] = z
+			}
+			z.kind = "late"
+			for q := range lateSubs[id][f] {
+				z.qos[q] = true
+			}
+		}
+		delete(lateSubs, id)
+		return
+	}
+
 	// doDisc: the teardown readLoop's deferred cleanup performs (closeAndDelSession,
 	// Broker.removeClient). Variants: the broker closed the client before
 	// (Client.close(): take-over, pipeline Disconnect), an admin deleted the
@@ -1653,30 +1762,6 @@ func c14Exec(r *sim.Run, sci interface{}) {
 			}
 			account(had, what, inv, ret)
 			afterMutation(id)
-			return
-		}
-		// settle: the disconnect of the id is complete. Whatever a late SUBSCRIBE
-		// named and is still in the tree now is that SUBSCRIBE's residue (this decides
-		// the class name, routing decides the verdict)
-		settle := func() (had int) {
-			delete(limbo, id)
-			delete(cleaned, id)
-			had = ref.disconnectKind(id, left, "late")
-			for _, f := range c14Keys(lateSubs[id]) {
-				if !left(f) {
-					continue
-				}
-				z := ref.zomb[id][f]
-				if z == nil {
-					z = &c14Zombie{kind: "late", qos: map[byte]bool{}}
-					ref.zomb[id][f] = z
-				}
-				z.kind = "late"
-				for q := range lateSubs[id][f] {
-					z.qos[q] = true
-				}
-			}
-			delete(lateSubs, id)
 			return
 		}
 		// first half
@@ -1757,7 +1842,7 @@ func c14Exec(r *sim.Run, sci interface{}) {
 			if err := cp.Write(&buf); err != nil {
 				return
 			}
-			fc := &c14FakeConn{in: buf.Bytes(), ready: make(chan struct{}), hangup: make(chan struct{})}
+			fc := &c14FakeConn{in: buf.Bytes(), ready: make(chan struct{}), hangup: make(chan struct{}), failWrite: op.Succ.Fail}
 			hdone := make(chan struct{})
 			inv := r.Seq()
 			go func() {
@@ -1779,7 +1864,7 @@ func c14Exec(r *sim.Run, sci interface{}) {
 			}
 			if succ != nil && succ != cn.c && succ.session != nil {
 				ret := r.Seq()
-				had := settle() // the old connection's subscriptions live on exactly if both sessions are cleanSession=false ones
+				had := settle(id) // the old connection's subscriptions live on exactly if both sessions are cleanSession=false ones
 				conns[id] = &c14Conn{succ, succ.session}
 				restored, _, _ := ref.connect(id, op.Succ.P, false)
 				r.Fault("reconnect_while_closed_connection_lingers")
@@ -1882,7 +1967,7 @@ func c14Exec(r *sim.Run, sci interface{}) {
 				if fatal {
 					return
 				}
-				had = settle()
+				had = settle(id)
 				ret = r.Seq()
 				delete(conns, id)
 				olds[id] = append(olds[id], succ)
@@ -1893,9 +1978,36 @@ func c14Exec(r *sim.Run, sci interface{}) {
 				afterMutation(id)
 				return
 			}
-			// the connection attempt was refused: go on as if nobody had come
 			close(fc.hangup)
 			<-hdone
+			if op.Succ.Fail && succ == nil && cn.c.takenOver() {
+				// the successor took the id over and then failed to write its CONNACK:
+				// the id has no connection any more, only the superseded one lingers
+				had := settle(id)
+				restored, _, _ := ref.connect(id, op.Succ.P, false)
+				had2 := ref.disconnectKind(id, left, "late")
+				limbo[id] = true
+				cleaned[id] = "a newer connection, whose handshake then failed, had replaced its closed, lingering connection"
+				r.Fault("connack_write_fails")
+				if restored > 0 {
+					r.Probe("succ.failed_handshake_had_inherited_subscriptions")
+				}
+				nRemovedLive += had2
+				hist = append(hist, c14Rec{id, "successor-failed-conn(" + c14Mode(op.Succ.P) + ")", inv, r.Seq(), fmt.Sprintf("removed %d restored %d", had, restored)})
+				r.Eventf("%s successor-failed-conn %s -> restored %d", id, c14Mode(op.Succ.P), restored)
+				// the reference is out of limbo for what it had: only a late packet is optional now
+				delete(limbo, id)
+				afterMutation(id)
+				if fatal {
+					return
+				}
+				limbo[id] = true
+				r.Sleep(0)
+				if fatal || r.Aborted() {
+					return
+				}
+			}
+			// otherwise the connection attempt was refused: go on as if nobody had come
 		}
 		if l := op.Late; l != nil && !lateDone {
 			tag := strings.ReplaceAll(kind, " ", "_")
@@ -1919,7 +2031,7 @@ func c14Exec(r *sim.Run, sci interface{}) {
 		had := 0
 		if !call("closeAndDelSession (teardown after "+kind+")", func() {
 			cn.c.closeAndDelSession()
-			had = settle()
+			had = settle(id)
 			if kind == "admin session delete" {
 				// the statement does not know admin deletions: whether the session can be resumed is left open
 				for f := range ref.stored[id] {
@@ -1979,6 +2091,276 @@ func c14Exec(r *sim.Run, sci interface{}) {
 		afterMutation(id)
 	}
 
+	// ---- fourth wave: handshakes through the real Broker.handleConn ------------
+	newFake := func(id string, persist bool) *c14FakeConn {
+		cp := packets.NewControlPacket(packets.Connect).(*packets.ConnectPacket)
+		cp.ProtocolName, cp.ProtocolVersion = "MQTT", 4
+		cp.ClientIdentifier = id
+		cp.CleanSession = !persist
+		var buf bytes.Buffer
+		if err := cp.Write(&buf); err != nil {
+			return nil
+		}
+		return &c14FakeConn{in: buf.Bytes(), ready: make(chan struct{}), hangup: make(chan struct{})}
+	}
+	isClosed := func(ch chan struct{}) bool {
+		select {
+		case <-ch:
+			return true
+		default:
+			return false
+		}
+	}
+	yieldUntil := func(cond func() bool, max int) bool {
+		for i := 0; i < max; i++ {
+			if cond() {
+				return true
+			}
+			runtime.Gosched()
+		}
+		return cond()
+	}
+	goHandle := func(fc *c14FakeConn) chan struct{} {
+		done := make(chan struct{})
+		go func() {
+			defer close(done)
+			defer func() {
+				if p := recover(); p != nil {
+					violate("C14.panic", "Broker.handleConn panicked: %v", p)
+				}
+			}()
+			b.handleConn(fc)
+		}()
+		return done
+	}
+
+	// doFailConn: CONNECT is accepted, the id registered, its session resumed
+	// and the session's subscriptions restored; then the CONNACK cannot be
+	// written and handleConn backs out. Reference: a connect and a disconnect in
+	// one step; whether a cleanSession=true CONNECT that failed this way has
+	// discarded the stored session is left open (the statement knows no failed handshakes).
+	doFailConn := func(id string, persist bool) {
+		if conns[id] != nil {
+			return
+		}
+		if _, mk := ref.stored[id]["<<"]; mk {
+			return // known finding (stored session undecodable): not mixed into this
+		}
+		fc := newFake(id, persist)
+		if fc == nil {
+			return
+		}
+		fc.failWrite = true
+		keep, keepOpt := ref.stored[id], ref.storedOpt[id]
+		inv := r.Seq()
+		if !call("Broker.handleConn (CONNACK write fails)", func() { b.handleConn(fc) }) {
+			return
+		}
+		ret := r.Seq()
+		restored, _, _ := ref.connect(id, persist, false)
+		had := ref.disconnect(id, func(f string) bool { return c14InTrie(mgr.root, f, id) })
+		if !persist && len(keep) > 0 {
+			ref.stored[id] = keep
+			if keepOpt == nil {
+				keepOpt = map[string]bool{}
+			}
+			for f := range keep {
+				keepOpt[f] = true
+			}
+			ref.storedOpt[id] = keepOpt
+		}
+		r.Fault("connack_write_fails")
+		if restored > 0 {
+			r.Probe("fconn.failed_handshake_of_session_with_stored_subscriptions")
+			nRemovedLive += had
+		}
+		hist = append(hist, c14Rec{id, "failed-conn(" + c14Mode(persist) + ")", inv, ret, fmt.Sprintf("restored %d", restored)})
+		r.Eventf("%s failed-conn %s -> restored %d (%d,%d)", id, c14Mode(persist), restored, inv, ret)
+		afterMutation(id)
+	}
+
+	// subOn: SUBSCRIBE on a connection that runs its own read/write loops (made by
+	// handleConn): the SUBACK shows up on its fake socket.
+	subOn := func(id string, c *Client, fc *c14FakeConn, subs []c14Sub, tag string) {
+		fs, qs := clean(subs)
+		if len(fs) == 0 {
+			return
+		}
+		pkt := packets.NewControlPacket(packets.Subscribe).(*packets.SubscribePacket)
+		mid++
+		pkt.MessageID = mid
+		pkt.Topics = fs
+		pkt.Qoss = qs
+		want := mid
+		inv := r.Seq()
+		if !call("processSubscribe ("+tag+")", func() { processSubscribe(c, pkt) }) {
+			return
+		}
+		acked := yieldUntil(func() bool {
+			for _, m := range fc.subacks {
+				if m == want {
+					return true
+				}
+			}
+			return false
+		}, 60)
+		if sa, _ := drain(c); sa != nil && sa.MessageID == want {
+			acked = true
+		}
+		ret := r.Seq()
+		nBad := 0
+		for _, f := range fs {
+			if !c14Valid(f) {
+				nBad++
+			}
+		}
+		out := "refused"
+		if acked {
+			out = "suback"
+		}
+		hist = append(hist, c14Rec{id, tag + render(fs, qs), inv, ret, out})
+		r.Eventf("%s %s %s -> %s (%d,%d)", id, tag, render(fs, qs), out, inv, ret)
+		switch {
+		case nBad > 0 && acked:
+			violate("C14.malformed-accepted", "%s: SUBSCRIBE %s contains malformed filter(s) and was acknowledged", id, render(fs, qs))
+			return
+		case nBad == 0 && acked:
+			for i, f := range fs {
+				delete(lostRestore[id], f)
+				ref.subscribe(id, f, qs[i])
+			}
+			r.Probe("race.subscribe_acknowledged_on_connection_made_by_handleConn")
+		default:
+			for i, f := range fs {
+				if c14Valid(f) {
+					ref.maybeSubscribe(id, f, qs[i])
+				}
+			}
+		}
+		afterMutation(id)
+	}
+
+	// doRace: two CONNECTs of the same (unconnected) id race; the storage is slow
+	// for the first session read. Whoever registers second takes the other over
+	// (the reference follows the order observed). If the second is through before
+	// the first's read returns it SUBSCRIBEs at once. The loser's socket is hung
+	// up, the survivor SUBSCRIBEs and hangs up too. Everything between the start
+	// of the race and its settling happens without a gate: a handshake that waits
+	// for the storage inside the broker lock holds a real mutex.
+	doRace := func(id string, op c14Op) {
+		if conns[id] != nil {
+			return
+		}
+		if _, mk := ref.stored[id]["<<"]; mk {
+			return
+		}
+		fcA, fcB := newFake(id, op.P), newFake(id, op.P2)
+		if fcA == nil || fcB == nil {
+			return
+		}
+		inv := r.Seq()
+		slowStore.armed = sessionStoreKey(id)
+		slowStore.release = make(chan struct{})
+		doneA := goHandle(fcA)
+		yieldUntil(func() bool { return slowStore.waiting || isClosed(fcA.ready) || isClosed(doneA) }, 2000)
+		slow := slowStore.waiting
+		slowStore.armed = ""
+		doneB := goHandle(fcB)
+		yieldUntil(func() bool { return isClosed(fcB.ready) || isClosed(doneB) }, 400)
+		bFirst := slow && isClosed(fcB.ready)
+		if slow {
+			r.Fault("slow_storage_read_during_connect")
+		}
+		if bFirst {
+			// the second CONNECT overtook the first one's session read
+			r.Probe("race.second_connect_completed_during_first_ones_storage_read")
+			ref.connect(id, op.P2, false)
+			if cB := b.getClient(id); cB != nil && !fatal {
+				subOn(id, cB, fcB, op.Subs, "race-sub(overtaker)")
+			}
+		} else if slow {
+			r.Probe("race.second_connect_waited_for_first_ones_storage_read")
+		}
+		close(slowStore.release)
+		yieldUntil(func() bool {
+			return (isClosed(fcA.ready) || isClosed(doneA)) && (isClosed(fcB.ready) || isClosed(doneB))
+		}, 4000)
+		if fatal {
+			return
+		}
+		cur := b.getClient(id)
+		var fcW, fcL *c14FakeConn
+		var doneW, doneL chan struct{}
+		pW, pL := op.P, op.P2
+		switch {
+		case cur != nil && cur.conn == net.Conn(fcA):
+			fcW, doneW, fcL, doneL = fcA, doneA, fcB, doneB
+		case cur != nil && cur.conn == net.Conn(fcB):
+			fcW, doneW, fcL, doneL = fcB, doneB, fcA, doneA
+			pW, pL = op.P2, op.P
+		default:
+			// nobody is registered: not expected, hang both up and let routing judge
+			close(fcA.hangup)
+			close(fcB.hangup)
+			<-doneA
+			<-doneB
+			if bFirst {
+				settle(id)
+			}
+			afterMutation(id)
+			return
+		}
+		if bFirst && fcW == fcB {
+			// the overtaker is also the survivor: the first CONNECT never took over (not expected either)
+			r.Probe("race.first_connect_did_not_register")
+		} else {
+			if !bFirst {
+				ref.connect(id, pL, false)
+			}
+			settle(id)
+			ref.connect(id, pW, false)
+		}
+		ret := r.Seq()
+		conns[id] = &c14Conn{cur, cur.session}
+		hist = append(hist, c14Rec{id, "race-conn(" + c14Mode(op.P) + "," + c14Mode(op.P2) + ")", inv, ret, fmt.Sprintf("overtaken=%v survivor=%s", bFirst, c14Mode(pW))})
+		r.Eventf("%s race-conn %s %s overtaken=%v survivor=%s (%d,%d)", id, c14Mode(op.P), c14Mode(op.P2), bFirst, c14Mode(pW), inv, ret)
+		// the loser's socket is hung up: its read loop's teardown must leave the id alone
+		close(fcL.hangup)
+		<-doneL
+		afterMutation(id)
+		if fatal {
+			return
+		}
+		r.Sleep(0)
+		if fatal || r.Aborted() {
+			return
+		}
+		subOn(id, cur, fcW, op.Subs2, "race-sub(survivor)")
+		if fatal {
+			return
+		}
+		r.Sleep(0)
+		if fatal || r.Aborted() {
+			return
+		}
+		inv = r.Seq()
+		close(fcW.hangup)
+		<-doneW
+		had := settle(id)
+		ret = r.Seq()
+		delete(conns, id)
+		olds[id] = append(olds[id], cur)
+		if had > 0 {
+			nRemovedLive += had
+			if ref.persist[id] {
+				r.Probe("disc.persistent_session_keeps_subscriptions")
+			}
+		}
+		hist = append(hist, c14Rec{id, "race-disc", inv, ret, fmt.Sprint(had)})
+		r.Eventf("%s race-disc -> removed %d (%d,%d)", id, had, inv, ret)
+		afterMutation(id)
+	}
+
 	seenID := map[string]bool{}
 	for ti := range sc.Tasks {
 		t := sc.Tasks[ti]
@@ -2010,6 +2392,10 @@ func c14Exec(r *sim.Run, sci interface{}) {
 					doDisc(t.ID, op)
 				case "late":
 					doLate(t.ID, op.N)
+				case "fconn":
+					doFailConn(t.ID, op.P)
+				case "race":
+					doRace(t.ID, op)
 				case "conn":
 					if conns[t.ID] == nil {
 						connect(t.ID, op.P)
@@ -2117,7 +2503,7 @@ func TestVerifC14(t *testing.T) {
 		New:      func() interface{} { return &c14Scenario{} },
 		Exec:     c14Exec,
 		MaxSteps: 20000,
-		Rule: "scenario = LRU size from {1,2,4,64} + 2-5 client tasks (subscribe/unsubscribe lists, re-subscribe with other QoS, unsubscribe of filters not held, malformed filters, disconnect by plain teardown / after a broker-initiated close / after an admin deletion of the session / after the write loop's own clean-up, the last three optionally with a window in which one more SUBSCRIBE or UNSUBSCRIBE is processed (also inside the write loop's closeAndDelSession, before its Client.close()) and, after a broker-initiated close, in which a successor connection made by the real Broker.handleConn comes and goes, a repeated teardown of an earlier connection, reconnect with cleanSession true/false incl. restore of the stored session's subscriptions) and 1-2 publisher tasks over filters/topics of <=4-5 (11%: <=9) levels from {a,b,ab,'',+,#} plus, in 30% of the scenarios, 1-3 level strings from a list of 48 unusual ones (blanks, YAML-special text, upper case, CJK, emoji, 130+ bytes, '$' prefixes), <=60 operations; " +
+		Rule: "scenario = LRU size from {1,2,4,64} + 2-5 client tasks (subscribe/unsubscribe lists, re-subscribe with other QoS, unsubscribe of filters not held, malformed filters, disconnect by plain teardown / after a broker-initiated close / after an admin deletion of the session / after the write loop's own clean-up, the last three optionally with a window in which one more SUBSCRIBE or UNSUBSCRIBE is processed (also inside the write loop's closeAndDelSession, before its Client.close()) and, after a broker-initiated close, in which a successor connection made by the real Broker.handleConn comes and goes (or fails to write its CONNACK), a handshake of an unconnected id whose CONNACK cannot be written, two racing CONNECTs of one id with a slow storage read for the first, a repeated teardown of an earlier connection, reconnect with cleanSession true/false incl. restore of the stored session's subscriptions) and 1-2 publisher tasks over filters/topics of <=4-5 (11%: <=9) levels from {a,b,ab,'',+,#} plus, in 30% of the scenarios, 1-3 level strings from a list of 48 unusual ones (blanks, YAML-special text, upper case, CJK, emoji, 130+ bytes, '$' prefixes), <=60 operations; " +
 			"non-trivial = some publish was routed through a wildcard filter and some publish happened after a live subscription had been removed; distinct = distinct (cache size, linearised operation history with results) signatures",
 		Real: []string{"pkg/object/mqttproxy/topic.go (TopicManager: subscribe, unsubscribe, findSubscribers, insert, remove, splitTopic, level LRU)",
 			"pkg/object/mqttproxy/client.go (processSubscribe, processUnsubscribe, Client.closeAndDelSession, close)",
@@ -2133,6 +2519,8 @@ func TestVerifC14(t *testing.T) {
 			"entries of a cleanSession=false session touched in such a window, and the whole session after an admin deletion, may or may not come back at the next cleanSession=false connect",
 			"a stored cleanSession=false session must come back whatever (control-character-free) text its filters consist of (C14.restore-lost.stored-session-undecodable otherwise)",
 			"a repeated teardown of a connection that was torn down earlier must not change anything",
+			"a handshake that fails at the CONNACK counts as a connect plus a disconnect: the id is not routed afterwards and a cleanSession=false session keeps its subscriptions; whether a failed cleanSession=true CONNECT discarded the stored session is left open",
+			"of two racing CONNECTs of one id the one that registers second (observed) takes the other over; subscriptions acknowledged on either survive exactly if both sessions are cleanSession=false",
 			"a connection of an id whose closed predecessor still lingers holds the predecessor's subscriptions exactly if both sessions are cleanSession=false; a SUBSCRIBE still processed by the superseded connection is optional while the id is connected and must be gone once the successor has left",
 			"when several subscriptions of a client match, the QoS of any of them is accepted",
 			"a client with a cleanSession=false session is not in the routing set while it is away; after its cleanSession=false reconnect it holds the stored subscriptions with the QoS of the last subscribe of each filter",
